@@ -211,12 +211,47 @@ pub fn relative_require(from: &str, to: &str) -> String {
     out
 }
 
+/// One alias of a `.luaurc` file: `<dir>/.luaurc` maps `@<name>` to `<target>`.
+#[derive(Clone, Debug, PartialEq, Eq)]
+pub struct AliasDef {
+    pub dir: String,
+    pub name: String,
+    pub target: String,
+}
+
+/// The require string written in `from` for the file `to`: through an alias of the
+/// `.luaurc` governing `from` when one covers `to`, else a relative path.
+pub fn require_text(from: &str, to: &str, aliases: &[AliasDef]) -> String {
+    // the nearest .luaurc above `from`
+    let mut governing: Option<&str> = None;
+    for a in aliases {
+        if from.starts_with(&format!("{}/", a.dir))
+            && governing.map(|g| a.dir.len() > g.len()).unwrap_or(true)
+        {
+            governing = Some(&a.dir);
+        }
+    }
+    if let Some(dir) = governing {
+        for a in aliases.iter().filter(|a| a.dir == dir) {
+            if let Some(rest) = to.strip_prefix(&format!("{}/", a.target)) {
+                return format!("@{}/{}", a.name, rest);
+            }
+        }
+    }
+    relative_require(from, to)
+}
+
 #[derive(Clone, Debug)]
 pub struct SourceFile {
     pub path: String,
     pub body_index: usize,
     pub version: u32,
     pub requires: Vec<String>,
+    /// writes its requires through `.luaurc` aliases; such a file is never required by
+    /// another one (darklua resolves aliases with the `.luaurc` nearest to the bundle
+    /// *entry*, so an alias inside a required module would depend on who requires it -
+    /// resolution semantics are C15, not modelled here)
+    pub use_alias: bool,
 }
 
 #[derive(Clone, Debug)]
@@ -228,6 +263,7 @@ pub struct Project {
     pub data: Vec<(String, String)>,
     pub other: Vec<FsEntry>,
     pub bundle: Option<String>,
+    pub aliases: Vec<AliasDef>,
 }
 
 impl Project {
@@ -240,7 +276,13 @@ impl Project {
         let requires: Vec<String> = src
             .requires
             .iter()
-            .map(|to| relative_require(&src.path, to))
+            .map(|to| {
+                if src.use_alias {
+                    require_text(&src.path, to, &self.aliases)
+                } else {
+                    relative_require(&src.path, to)
+                }
+            })
             .collect();
         corpus::render_lua(
             corpus::BODIES[src.body_index],
@@ -321,6 +363,7 @@ pub fn gen_project(rng: &mut Rng, knobs: &ProjectKnobs) -> Project {
             body_index: rng.below(corpus::BODIES.len()),
             version: 0,
             requires: Vec::new(),
+            use_alias: false,
         });
     }
     let bundle = if knobs.allow_bundle && rng.chance(2, 5) {
@@ -360,6 +403,61 @@ pub fn gen_project(rng: &mut Rng, knobs: &ProjectKnobs) -> Project {
         }
     }
     let mut other: Vec<FsEntry> = Vec::new();
+    let mut aliases: Vec<AliasDef> = Vec::new();
+    if bundle.is_some() && !input_is_file && rng.chance(1, 3) {
+        // two .luaurc files defining the same alias differently: which one governs a
+        // file decides what `@lib/...` means there
+        let root_target = join(&input_dir, "sub");
+        let nested_dir = join(&input_dir, "other dir");
+        let nested_target = join(&input_dir, "dots.v1.2");
+        aliases.push(AliasDef {
+            dir: input_dir.clone(),
+            name: "lib".to_owned(),
+            target: root_target.clone(),
+        });
+        aliases.push(AliasDef {
+            dir: nested_dir.clone(),
+            name: "lib".to_owned(),
+            target: nested_target.clone(),
+        });
+        other.push(FsEntry {
+            path: join(&input_dir, ".luaurc"),
+            body: Body::Text("{ \"aliases\": { \"lib\": \"./sub\" } }\n".to_owned()),
+        });
+        other.push(FsEntry {
+            path: join(&nested_dir, ".luaurc"),
+            body: Body::Text("{ \"aliases\": { \"lib\": \"../dots.v1.2\" } }\n".to_owned()),
+        });
+        let mut ensure = |sources: &mut Vec<SourceFile>, path: String, rng: &mut Rng| {
+            if !sources.iter().any(|s| s.path == path) {
+                sources.push(SourceFile {
+                    path,
+                    body_index: rng.below(corpus::BODIES.len()),
+                    version: 0,
+                    requires: Vec::new(),
+                    use_alias: false,
+                });
+            }
+        };
+        let root_lib = join(&root_target, "libmod.lua");
+        let nested_lib = join(&nested_target, "libmod.lua");
+        let root_user = join(&input_dir, "rootuser.lua");
+        let nested_user = join(&nested_dir, "nesteduser.lua");
+        ensure(&mut sources, root_lib.clone(), rng);
+        ensure(&mut sources, nested_lib.clone(), rng);
+        ensure(&mut sources, root_user.clone(), rng);
+        ensure(&mut sources, nested_user.clone(), rng);
+        for s in sources.iter_mut() {
+            if s.path == root_user {
+                s.use_alias = true;
+                s.requires = vec![root_lib.clone()];
+            }
+            if s.path == nested_user {
+                s.use_alias = true;
+                s.requires = vec![nested_lib.clone()];
+            }
+        }
+    }
     if !input_is_file {
         if rng.chance(1, 2) {
             other.push(FsEntry {
@@ -411,6 +509,7 @@ pub fn gen_project(rng: &mut Rng, knobs: &ProjectKnobs) -> Project {
         data,
         other,
         bundle,
+        aliases,
     }
 }
 
